@@ -5,802 +5,35 @@
 package main
 
 import (
-	"bufio"
 	"fmt"
-	"go/ast"
-	"go/build"
-	"go/constant"
-	"go/parser"
-	"go/token"
-	"go/types"
 	"os"
 	"path/filepath"
 	"reflect"
-	"regexp"
-	"runtime"
 	"sort"
-	"strconv"
 	"strings"
 
 	"github.com/traefik/yaegi/stdlib"
 	"verif/engine/par"
 	"verif/engine/report"
+	"verif/engine/tablecheck"
 )
-
-var repo = func() string {
-	if r := os.Getenv("VERIF_REPO"); r != "" {
-		return r
-	}
-	return "/repo"
-}()
-
-// ---- source importer with explicit build context ----
-
-type srcImporter struct {
-	ctx  build.Context
-	fset *token.FileSet
-	pkgs map[string]*types.Package
-}
-
-func newImporter(goos, goarch string) *srcImporter {
-	ctx := build.Default
-	ctx.GOOS, ctx.GOARCH, ctx.CgoEnabled = goos, goarch, false
-	ctx.GOPATH = ""
-	return &srcImporter{ctx: ctx, fset: token.NewFileSet(), pkgs: map[string]*types.Package{}}
-}
-
-func (m *srcImporter) Import(path string) (*types.Package, error) { return m.ImportFrom(path, "", 0) }
-
-func (m *srcImporter) ImportFrom(path, dir string, _ types.ImportMode) (*types.Package, error) {
-	if path == "unsafe" {
-		return types.Unsafe, nil
-	}
-	if p := m.pkgs[path]; p != nil {
-		return p, nil
-	}
-	bp, err := m.ctx.Import(path, dir, 0)
-	if err != nil {
-		return nil, err
-	}
-	if p := m.pkgs[bp.ImportPath]; p != nil {
-		return p, nil
-	}
-	var files []*ast.File
-	for _, f := range bp.GoFiles {
-		af, err := parser.ParseFile(m.fset, filepath.Join(bp.Dir, f), nil, parser.SkipObjectResolution)
-		if err != nil {
-			return nil, err
-		}
-		files = append(files, af)
-	}
-	conf := types.Config{Importer: m, FakeImportC: true, Sizes: types.SizesFor("gc", m.ctx.GOARCH), Error: func(err error) {}}
-	p, _ := conf.Check(bp.ImportPath, m.fset, files, nil)
-	m.pkgs[bp.ImportPath] = p
-	m.pkgs[path] = p
-	return p, nil
-}
-
-// ---- table files ----
-
-type tableFile struct {
-	Path    string
-	Dir     string // stdlib | syscall | unrestricted | unsafe
-	Release int    // 21 | 22
-	GOOS    string
-	GOARCH  string
-}
-
-var platRe = regexp.MustCompile(`^go1_(\d+)_syscall_([a-z0-9]+)_([a-z0-9]+)\.go$`)
-var relRe = regexp.MustCompile(`^go1_(\d+)_`)
-
-func listFiles() []tableFile {
-	var out []tableFile
-	for _, d := range []struct{ sub, name string }{{"", "stdlib"}, {"syscall", "syscall"}, {"unrestricted", "unrestricted"}, {"unsafe", "unsafe"}} {
-		ents, err := os.ReadDir(filepath.Join(repo, "stdlib", d.sub))
-		if err != nil {
-			fmt.Fprintln(os.Stderr, "HARNESS-ERROR:", err)
-			os.Exit(3)
-		}
-		for _, e := range ents {
-			m := relRe.FindStringSubmatch(e.Name())
-			if e.IsDir() || m == nil {
-				continue
-			}
-			tf := tableFile{Path: filepath.Join(repo, "stdlib", d.sub, e.Name()), Dir: d.name, GOOS: "linux", GOARCH: "amd64"}
-			tf.Release, _ = strconv.Atoi(m[1])
-			if pm := platRe.FindStringSubmatch(e.Name()); pm != nil {
-				tf.GOOS, tf.GOARCH = pm[2], pm[3]
-			}
-			out = append(out, tf)
-		}
-	}
-	sort.Slice(out, func(i, j int) bool { return out[i].Path < out[j].Path })
-	return out
-}
-
-// documented restricted replacements: (package path, name) -> identifier bound instead
-var replacements = map[string]string{
-	"os.Exit": "osExit", "os.FindProcess": "osFindProcess",
-	"log.Fatal": "logFatal", "log.Fatalf": "logFatalf", "log.Fatalln": "logFatalln", "log.New": "logNew", "log.Logger": "logLogger",
-}
-
-type problem struct {
-	File  string `json:"file"`
-	Pkg   string `json:"package"`
-	Name  string `json:"name"`
-	Kind  string `json:"kind"`
-	What  string `json:"what"`
-	Plat  string `json:"platform"`
-	Value string `json:"value,omitempty"`
-}
-
-type fileResult struct {
-	Problems []problem      `json:"problems,omitempty"`
-	Counts   map[string]int `json:"counts"`
-	Floats   []problem      `json:"rounded_floats,omitempty"`
-}
-
-// ---- api files ----
-
-type apiName struct{ kind string }
-
-var apiCache = map[string]map[string]map[string]bool{} // release -> platform key -> "pkg\x00Name" set
-
-var apiLine = regexp.MustCompile(`^pkg ([^ ,]+)( \(([^)]+)\))?, (const|var|func|type) ([A-Za-z_][A-Za-z0-9_]*)(.?)`)
-
-// apiNames returns the exported non-generic package-level names of pkg declared up to go1.<release>
-// for the platform (unqualified lines + lines qualified with exactly goos-goarch).
-func apiNames(pkg string, release int, goos, goarch string) map[string]bool {
-	names := map[string]bool{}
-	goroot := runtime.GOROOT()
-	for r := 0; r <= release; r++ {
-		fn := fmt.Sprintf("go1.%d.txt", r)
-		if r == 0 {
-			fn = "go1.txt"
-		}
-		f, err := os.Open(filepath.Join(goroot, "api", fn))
-		if err != nil {
-			continue
-		}
-		sc := bufio.NewScanner(f)
-		sc.Buffer(make([]byte, 1<<20), 1<<20)
-		for sc.Scan() {
-			l := sc.Text()
-			if !strings.HasPrefix(l, "pkg "+pkg) {
-				continue
-			}
-			m := apiLine.FindStringSubmatch(l)
-			if m == nil || m[1] != pkg {
-				continue
-			}
-			if m[3] != "" && m[3] != goos+"-"+goarch {
-				continue
-			}
-			if m[6] == "[" {
-				continue // generic function or type
-			}
-			if m[4] == "type" && strings.Contains(l, "type "+m[5]+"[") {
-				continue
-			}
-			names[m[5]] = true
-		}
-		f.Close()
-	}
-	return names
-}
-
-var methodCache = map[string]map[string]bool{}
-
-// apiHasMethod: is method m of interface pkg.iface declared by an api file up to go1.<release>?
-// (interfaces whose methods are listed nowhere, e.g. embedded-only ones, are not filtered).
-func apiHasMethod(pkg, iface, m string, release int) bool {
-	key := fmt.Sprintf("%s.%s@%d", pkg, iface, release)
-	set, ok := methodCache[key]
-	if !ok {
-		set = map[string]bool{}
-		later := map[string]bool{}
-		goroot := runtime.GOROOT()
-		for r := 0; r <= 40; r++ {
-			fn := fmt.Sprintf("go1.%d.txt", r)
-			if r == 0 {
-				fn = "go1.txt"
-			}
-			b, err := os.ReadFile(filepath.Join(goroot, "api", fn))
-			if err != nil {
-				continue
-			}
-			prefix := "pkg " + pkg + ", type " + iface + " interface, "
-			for _, l := range strings.Split(string(b), "\n") {
-				if strings.HasPrefix(l, prefix) {
-					name := strings.TrimPrefix(l, prefix)
-					if i := strings.IndexAny(name, "( "); i >= 0 {
-						name = name[:i]
-					}
-					if r <= release {
-						set[name] = true
-					} else {
-						later["later:"+name] = true
-					}
-				}
-			}
-		}
-		for k := range later {
-			set[k] = true
-		}
-		methodCache[key] = set
-	}
-	if set["later:"+m] && !set[m] {
-		return false
-	}
-	return true
-}
-
-// ---- checking one table file ----
-
-func checkFile(tf tableFile, imp *srcImporter) fileResult {
-	res := fileResult{Counts: map[string]int{}}
-	base := filepath.Base(tf.Path)
-	plat := tf.GOOS + "/" + tf.GOARCH
-	bad := func(pkg, name, kind, what, val string) {
-		res.Problems = append(res.Problems, problem{File: base, Pkg: pkg, Name: name, Kind: kind, What: what, Plat: plat, Value: val})
-	}
-	fset := token.NewFileSet()
-	f, err := parser.ParseFile(fset, tf.Path, nil, parser.ParseComments|parser.SkipObjectResolution)
-	if err != nil {
-		bad("", "", "file", "does not parse: "+err.Error(), "")
-		return res
-	}
-	imports := map[string]string{} // local name -> path
-	for _, is := range f.Imports {
-		p, _ := strconv.Unquote(is.Path.Value)
-		n := p[strings.LastIndex(p, "/")+1:]
-		if is.Name != nil {
-			n = is.Name.Name
-		}
-		imports[n] = p
-	}
-	wrappers := map[string]*ast.StructType{}
-	methods := map[string][]*ast.FuncDecl{}
-	var tables []*ast.AssignStmt
-	for _, d := range f.Decls {
-		switch x := d.(type) {
-		case *ast.GenDecl:
-			for _, s := range x.Specs {
-				if ts, ok := s.(*ast.TypeSpec); ok && strings.HasPrefix(ts.Name.Name, "_") {
-					if st, ok := ts.Type.(*ast.StructType); ok {
-						wrappers[ts.Name.Name] = st
-					}
-				}
-			}
-		case *ast.FuncDecl:
-			if x.Recv != nil && len(x.Recv.List) == 1 {
-				if id, ok := x.Recv.List[0].Type.(*ast.Ident); ok {
-					methods[id.Name] = append(methods[id.Name], x)
-				}
-			}
-			if x.Recv == nil && x.Name.Name == "init" {
-				for _, st := range x.Body.List {
-					if as, ok := st.(*ast.AssignStmt); ok {
-						tables = append(tables, as)
-					}
-				}
-			}
-		}
-	}
-	for _, as := range tables {
-		ix, ok := as.Lhs[0].(*ast.IndexExpr)
-		if !ok {
-			continue
-		}
-		lit, ok := ix.Index.(*ast.BasicLit)
-		if !ok {
-			continue
-		}
-		key, _ := strconv.Unquote(lit.Value) // "os/os"
-		pkgPath := key[:strings.LastIndex(key, "/")]
-		cl, ok := as.Rhs[0].(*ast.CompositeLit)
-		if !ok {
-			bad(pkgPath, "", "table", "unexpected table form", "")
-			continue
-		}
-		pkg, err := imp.Import(pkgPath)
-		if err != nil || pkg == nil {
-			bad(pkgPath, "", "table", fmt.Sprint("cannot load reference package: ", err), "")
-			continue
-		}
-		res.Counts["tables"]++
-		keys := map[string]bool{}
-		for _, el := range cl.Elts {
-			kv := el.(*ast.KeyValueExpr)
-			name, _ := strconv.Unquote(kv.Key.(*ast.BasicLit).Value)
-			keys[name] = true
-			res.Counts["entries"]++
-			checkEntry(tf, &res, bad, pkgPath, pkg, imports, name, kv.Value, wrappers, methods)
-		}
-		// completeness against the api files of the targeted release
-		want := apiNames(pkgPath, tf.Release, tf.GOOS, tf.GOARCH)
-		for n := range want {
-			res.Counts["api_names_required"]++
-			if !keys[n] {
-				// an api name that the installed sources no longer export at package level for this platform is not demanded
-				o := pkg.Scope().Lookup(n)
-				if o == nil {
-					res.Counts["api_names_absent_from_installed_sources"]++
-					continue
-				}
-				if tn, ok := o.(*types.TypeName); ok {
-					if it, ok := tn.Type().Underlying().(*types.Interface); ok && !it.IsMethodSet() {
-						res.Counts["constraint_interfaces_not_bindable"]++
-						continue
-					}
-				}
-				if pkgPath == "syscall" && tf.Dir == "syscall" {
-					// the syscall table is split: process-control entries live in the unrestricted table
-					res.Counts["syscall_names_left_to_unrestricted"]++
-					continue
-				}
-				if pkgPath == "syscall" && tf.Dir == "unrestricted" {
-					continue
-				}
-				bad(pkgPath, n, "missing", "exported object declared by go1."+strconv.Itoa(tf.Release)+" api is not in the table", "")
-			}
-		}
-	}
-	return res
-}
-
-func importsPath(imports map[string]string, path string) bool {
-	for _, p := range imports {
-		if p == path {
-			return true
-		}
-	}
-	return false
-}
-
-func selector(e ast.Expr) (string, string, bool) {
-	if s, ok := e.(*ast.SelectorExpr); ok {
-		if id, ok := s.X.(*ast.Ident); ok {
-			return id.Name, s.Sel.Name, true
-		}
-	}
-	return "", "", false
-}
-
-func checkEntry(tf tableFile, res *fileResult, bad func(pkg, name, kind, what, val string), pkgPath string, pkg *types.Package, imports map[string]string, name string, v ast.Expr, wrappers map[string]*ast.StructType, methods map[string][]*ast.FuncDecl) {
-	// unwrap reflect.ValueOf(X) [.Elem()]
-	elem := false
-	call, ok := v.(*ast.CallExpr)
-	if ok {
-		if q, s, ok2 := selector(call.Fun); ok2 && q != "reflect" && s == "Elem" {
-			_ = q
-		}
-		if se, ok2 := call.Fun.(*ast.SelectorExpr); ok2 && se.Sel.Name == "Elem" {
-			if inner, ok3 := se.X.(*ast.CallExpr); ok3 {
-				elem = true
-				call = inner
-			}
-		}
-	}
-	if !ok || len(call.Args) != 1 {
-		bad(pkgPath, name, "form", "entry is not reflect.ValueOf(...)", "")
-		return
-	}
-	if q, s, ok := selector(call.Fun); !ok || q != "reflect" || s != "ValueOf" {
-		bad(pkgPath, name, "form", "entry is not reflect.ValueOf(...)", "")
-		return
-	}
-	arg := call.Args[0]
-	short := pkgPath[strings.LastIndex(pkgPath, "/")+1:]
-	qualOK := func(q string) bool { return imports[q] == pkgPath || (imports[q] == "" && q == pkg.Name() && importsPath(imports, pkgPath)) }
-	lookup := func(n string) types.Object {
-		o := pkg.Scope().Lookup(n)
-		if o == nil || !o.Exported() {
-			return nil
-		}
-		return o
-	}
-	// wrapper entries "_I"
-	if strings.HasPrefix(name, "_") {
-		res.Counts["wrappers"]++
-		checkWrapper(tf.Release, res, bad, pkgPath, pkg, short, name, arg, wrappers, methods)
-		return
-	}
-	// documented replacements
-	if repl, ok := replacements[short+"."+name]; ok && pkgPath == short {
-		got := ""
-		switch x := arg.(type) {
-		case *ast.Ident:
-			got = x.Name
-		case *ast.CallExpr: // (*logLogger)(nil)
-			if p, ok := x.Fun.(*ast.ParenExpr); ok {
-				if st, ok := p.X.(*ast.StarExpr); ok {
-					if id, ok := st.X.(*ast.Ident); ok {
-						got = id.Name
-					}
-				}
-			}
-		}
-		res.Counts["documented_replacements"]++
-		if got != repl {
-			bad(pkgPath, name, "replacement", "documented restricted replacement "+repl+" expected, table binds "+exprString(arg), "")
-		}
-		return
-	}
-	switch x := arg.(type) {
-	case *ast.UnaryExpr: // &pkg.V  (must be followed by .Elem())
-		q, s, ok := selector(x.X)
-		if !ok || x.Op != token.AND || !elem {
-			bad(pkgPath, name, "form", "unexpected variable form "+exprString(arg), "")
-			return
-		}
-		res.Counts["vars"]++
-		if s != name || !qualOK(q) {
-			bad(pkgPath, name, "var", "bound to "+q+"."+s, "")
-			return
-		}
-		if o, ok := lookup(name).(*types.Var); !ok || o == nil {
-			bad(pkgPath, name, "var", "reference package has no exported variable of this name", "")
-		}
-	case *ast.SelectorExpr: // pkg.F or typed constant pkg.C
-		q, s, _ := selector(x)
-		res.Counts["funcs_and_typed_consts"]++
-		if s != name || !qualOK(q) || elem {
-			bad(pkgPath, name, "func", "bound to "+q+"."+s, "")
-			return
-		}
-		switch o := lookup(name).(type) {
-		case *types.Func:
-		case *types.Const:
-			if b, ok := o.Type().Underlying().(*types.Basic); ok && b.Info()&types.IsUntyped != 0 && b.Kind() != types.UntypedBool {
-				bad(pkgPath, name, "const", "untyped constant bound by value (loses its untypedness)", "")
-			}
-		default:
-			bad(pkgPath, name, "func", "reference package has no exported function or typed constant of this name", "")
-		}
-	case *ast.CallExpr:
-		// (*pkg.T)(nil)  or  constant.MakeFromLiteral(lit, token.K, 0)
-		if p, ok := x.Fun.(*ast.ParenExpr); ok {
-			st, ok := p.X.(*ast.StarExpr)
-			if !ok {
-				bad(pkgPath, name, "form", "unexpected type form", "")
-				return
-			}
-			q, s, ok := selector(st.X)
-			res.Counts["types"]++
-			if !ok || s != name || !qualOK(q) {
-				bad(pkgPath, name, "type", "bound to "+exprString(st.X), "")
-				return
-			}
-			if o, ok := lookup(name).(*types.TypeName); !ok || o == nil {
-				bad(pkgPath, name, "type", "reference package has no exported type of this name", "")
-			}
-			return
-		}
-		if q, s, ok := selector(x.Fun); ok && q == "constant" && s == "MakeFromLiteral" && len(x.Args) == 3 {
-			res.Counts["consts"]++
-			lit, _ := strconv.Unquote(x.Args[0].(*ast.BasicLit).Value)
-			_, tk, _ := selector(x.Args[1])
-			tokKind := map[string]token.Token{"INT": token.INT, "FLOAT": token.FLOAT, "IMAG": token.IMAG, "CHAR": token.CHAR, "STRING": token.STRING}[tk]
-			val := constant.MakeFromLiteral(lit, tokKind, 0)
-			o, ok := lookup(name).(*types.Const)
-			if !ok || o == nil {
-				bad(pkgPath, name, "const", "reference package has no exported constant of this name", lit)
-				return
-			}
-			if val.Kind() == constant.Unknown {
-				bad(pkgPath, name, "const", "literal does not parse as "+tk, lit)
-				return
-			}
-			if !constant.Compare(val, token.EQL, o.Val()) {
-				what := "value differs from the reference: table " + short4(val.ExactString()) + " reference " + short4(o.Val().ExactString())
-				p := problem{File: filepath.Base(tf.Path), Pkg: pkgPath, Name: name, Kind: "const", What: what, Plat: tf.GOOS + "/" + tf.GOARCH, Value: lit}
-				// non-dyadic float constants are stored as the decimal expansion of a binary rounding (generator design):
-				// recognised when the table value equals the reference rounded to a big.Float of the generator's precision
-				if tk == "FLOAT" && roundedEqual(val, o.Val()) {
-					res.Floats = append(res.Floats, p)
-					return
-				}
-				res.Problems = append(res.Problems, p)
-			}
-			return
-		}
-		bad(pkgPath, name, "form", "unexpected entry form "+exprString(arg), "")
-	default:
-		bad(pkgPath, name, "form", "unexpected entry form "+exprString(arg), "")
-	}
-}
-
-func short4(s string) string {
-	if len(s) > 60 {
-		return s[:28] + "…" + s[len(s)-28:]
-	}
-	return s
-}
-
-// roundedEqual: table value == reference value rounded to float precision 512 bits or less (relative error < 2^-200).
-func roundedEqual(table, ref constant.Value) bool {
-	d := constant.BinaryOp(table, token.SUB, ref)
-	if constant.Sign(d) < 0 {
-		d = constant.UnaryOp(token.SUB, d, 0)
-	}
-	a := ref
-	if constant.Sign(a) < 0 {
-		a = constant.UnaryOp(token.SUB, a, 0)
-	}
-	bound := constant.BinaryOp(a, token.QUO, constant.Shift(constant.MakeInt64(1), token.SHL, 200))
-	return constant.Compare(d, token.LSS, bound)
-}
-
-func exprString(e ast.Expr) string {
-	switch x := e.(type) {
-	case *ast.Ident:
-		return x.Name
-	case *ast.SelectorExpr:
-		return exprString(x.X) + "." + x.Sel.Name
-	case *ast.StarExpr:
-		return "*" + exprString(x.X)
-	case *ast.UnaryExpr:
-		return x.Op.String() + exprString(x.X)
-	case *ast.ParenExpr:
-		return "(" + exprString(x.X) + ")"
-	case *ast.CallExpr:
-		return exprString(x.Fun) + "(…)"
-	}
-	return fmt.Sprintf("%T", e)
-}
-
-// checkWrapper: "_I": reflect.ValueOf((*_pkg_I)(nil)); struct _pkg_I{IValue; W<M> func...}; one method per
-// interface method, same parameter/variadic/result lists, body forwards to the field of the same name.
-func checkWrapper(release int, res *fileResult, bad func(pkg, name, kind, what, val string), pkgPath string, pkg *types.Package, short, name string, arg ast.Expr, wrappers map[string]*ast.StructType, methods map[string][]*ast.FuncDecl) {
-	iname := name[1:]
-	wname := ""
-	if c, ok := arg.(*ast.CallExpr); ok {
-		if p, ok := c.Fun.(*ast.ParenExpr); ok {
-			if st, ok := p.X.(*ast.StarExpr); ok {
-				if id, ok := st.X.(*ast.Ident); ok {
-					wname = id.Name
-				}
-			}
-		}
-	}
-	st := wrappers[wname]
-	if st == nil {
-		bad(pkgPath, name, "wrapper", "wrapper type "+wname+" not declared in the file", "")
-		return
-	}
-	tn, ok := pkg.Scope().Lookup(iname).(*types.TypeName)
-	if !ok {
-		bad(pkgPath, name, "wrapper", "reference package has no type "+iname, "")
-		return
-	}
-	it, ok := tn.Type().Underlying().(*types.Interface)
-	if !ok {
-		bad(pkgPath, name, "wrapper", iname+" is not an interface in the reference package", "")
-		return
-	}
-	fields := map[string]*ast.FuncType{}
-	for _, fl := range st.Fields.List {
-		for _, n := range fl.Names {
-			if ft, ok := fl.Type.(*ast.FuncType); ok {
-				fields[n.Name] = ft
-			}
-		}
-	}
-	ms := map[string]*ast.FuncDecl{}
-	for _, m := range methods[wname] {
-		ms[m.Name.Name] = m
-	}
-	for i := 0; i < it.NumMethods(); i++ {
-		m := it.Method(i)
-		if !m.Exported() {
-			continue
-		}
-		if !apiHasMethod(pkgPath, iname, m.Name(), release) {
-			res.Counts["interface_methods_newer_than_release"]++
-			continue
-		}
-		res.Counts["wrapper_methods"]++
-		sig := m.Type().(*types.Signature)
-		fd := ms[m.Name()]
-		ft := fields["W"+m.Name()]
-		if fd == nil || ft == nil {
-			bad(pkgPath, name, "wrapper", "interface method "+m.Name()+" has no wrapper method or no W"+m.Name()+" field", "")
-			continue
-		}
-		if !sameShape(fd.Type, sig) || !sameShape(ft, sig) {
-			bad(pkgPath, name, "wrapper", "method "+m.Name()+": parameter/result lists differ from the interface ("+sig.String()+")", "")
-			continue
-		}
-		// body: last statement calls W.W<Name>(params...) with ... on a variadic parameter
-		if !forwards(fd, "W"+m.Name(), sig.Variadic()) {
-			bad(pkgPath, name, "wrapper", "method "+m.Name()+" does not forward all its arguments to W.W"+m.Name(), "")
-		}
-	}
-	for n := range ms {
-		found := false
-		for i := 0; i < it.NumMethods(); i++ {
-			if it.Method(i).Name() == n {
-				found = true
-			}
-		}
-		if !found {
-			bad(pkgPath, name, "wrapper", "wrapper has method "+n+" that the interface does not declare", "")
-		}
-	}
-}
-
-// sameShape compares arity, variadic-ness and the spelled types (base identifiers) of an AST signature with a types.Signature.
-func sameShape(ft *ast.FuncType, sig *types.Signature) bool {
-	count := func(fl *ast.FieldList) (n int, last ast.Expr, all []ast.Expr) {
-		if fl == nil {
-			return
-		}
-		for _, f := range fl.List {
-			k := len(f.Names)
-			if k == 0 {
-				k = 1
-			}
-			for i := 0; i < k; i++ {
-				all = append(all, f.Type)
-			}
-			n += k
-			last = f.Type
-		}
-		return
-	}
-	np, lastP, ptypes := count(ft.Params)
-	nr, _, rtypes := count(ft.Results)
-	if np != sig.Params().Len() || nr != sig.Results().Len() {
-		return false
-	}
-	_, isEll := lastP.(*ast.Ellipsis)
-	if isEll != sig.Variadic() {
-		return false
-	}
-	cmp := func(es []ast.Expr, tup *types.Tuple) bool {
-		for i, e := range es {
-			if baseName(e) != typeBase(tup.At(i).Type()) {
-				return false
-			}
-		}
-		return true
-	}
-	return cmp(ptypes, sig.Params()) && cmp(rtypes, sig.Results())
-}
-
-// baseName / typeBase reduce a type to a comparable spelling: kind prefix + innermost named/basic identifier.
-func baseName(e ast.Expr) string {
-	switch x := e.(type) {
-	case *ast.Ident:
-		switch x.Name {
-		case "any":
-			return "interface"
-		case "byte":
-			return "uint8"
-		case "rune":
-			return "int32"
-		}
-		return x.Name
-	case *ast.SelectorExpr:
-		return x.Sel.Name
-	case *ast.StarExpr:
-		return "*" + baseName(x.X)
-	case *ast.ArrayType:
-		if x.Len == nil {
-			return "[]" + baseName(x.Elt)
-		}
-		return "[n]" + baseName(x.Elt)
-	case *ast.Ellipsis:
-		return "[]" + baseName(x.Elt)
-	case *ast.MapType:
-		return "map[" + baseName(x.Key) + "]" + baseName(x.Value)
-	case *ast.ChanType:
-		return "chan " + baseName(x.Value)
-	case *ast.FuncType:
-		return "func"
-	case *ast.InterfaceType:
-		return "interface"
-	case *ast.StructType:
-		return "struct"
-	case *ast.IndexExpr:
-		return baseName(x.X)
-	}
-	return "?"
-}
-
-func typeBase(t types.Type) string {
-	switch x := t.(type) {
-	case *types.Basic:
-		n := x.Name()
-		if n == "byte" {
-			return "uint8"
-		}
-		if n == "rune" {
-			return "int32"
-		}
-		return n
-	case *types.Named:
-		return x.Obj().Name()
-	case *types.Alias:
-		if x.Obj().Name() == "any" {
-			return "interface"
-		}
-		return typeBase(types.Unalias(x))
-	case *types.Pointer:
-		return "*" + typeBase(x.Elem())
-	case *types.Slice:
-		return "[]" + typeBase(x.Elem())
-	case *types.Array:
-		return "[n]" + typeBase(x.Elem())
-	case *types.Map:
-		return "map[" + typeBase(x.Key()) + "]" + typeBase(x.Elem())
-	case *types.Chan:
-		return "chan " + typeBase(x.Elem())
-	case *types.Signature:
-		return "func"
-	case *types.Interface:
-		return "interface"
-	case *types.Struct:
-		return "struct"
-	case *types.TypeParam:
-		return x.Obj().Name()
-	}
-	return "?"
-}
-
-func forwards(fd *ast.FuncDecl, field string, variadic bool) bool {
-	if fd.Body == nil || len(fd.Body.List) == 0 {
-		return false
-	}
-	var params []string
-	for _, f := range fd.Type.Params.List {
-		for _, n := range f.Names {
-			params = append(params, n.Name)
-		}
-	}
-	last := fd.Body.List[len(fd.Body.List)-1]
-	var call *ast.CallExpr
-	switch s := last.(type) {
-	case *ast.ReturnStmt:
-		if len(s.Results) == 1 {
-			call, _ = s.Results[0].(*ast.CallExpr)
-		}
-	case *ast.ExprStmt:
-		call, _ = s.X.(*ast.CallExpr)
-	}
-	if call == nil {
-		return false
-	}
-	q, s, ok := selector(call.Fun)
-	if !ok || q != fd.Recv.List[0].Names[0].Name || s != field || len(call.Args) != len(params) {
-		return false
-	}
-	for i, a := range call.Args {
-		id, ok := a.(*ast.Ident)
-		if !ok || id.Name != params[i] {
-			return false
-		}
-	}
-	return call.Ellipsis.IsValid() == variadic
-}
 
 // ---- main ----
 
 type unit struct {
 	Plat  string
-	Files []tableFile
+	Files []tablecheck.TableFile
 }
 
 func main() {
 	r := report.Start("C14", "exploration")
 	os.Setenv("GO111MODULE", "off")
-	files := listFiles()
+	files := tablecheck.ListFiles()
 	// work units: one per syscall platform; the platform-independent tables in chunks
-	byPlat := map[string][]tableFile{}
-	var gen []tableFile
+	byPlat := map[string][]tablecheck.TableFile{}
+	var gen []tablecheck.TableFile
 	for _, f := range files {
-		if platRe.MatchString(filepath.Base(f.Path)) {
+		if tablecheck.PlatRe.MatchString(filepath.Base(f.Path)) {
 			byPlat[f.GOOS+"/"+f.GOARCH] = append(byPlat[f.GOOS+"/"+f.GOARCH], f)
 		} else {
 			gen = append(gen, f)
@@ -827,13 +60,13 @@ func main() {
 		fmt.Println("C14 has no per-case replay beyond re-running the whole (finite) table check: ./check C14")
 		os.Exit(0)
 	}
-	res := par.Map(len(units), func(i int) *fileResult {
+	res := par.Map(len(units), func(i int) *tablecheck.FileResult {
 		u := units[i]
 		pp := strings.Split(u.Plat, "/")
-		imp := newImporter(pp[0], pp[1])
-		total := fileResult{Counts: map[string]int{}}
+		imp := tablecheck.NewImporter(pp[0], pp[1])
+		total := tablecheck.FileResult{Counts: map[string]int{}}
 		for _, tf := range u.Files {
-			fr := checkFile(tf, imp)
+			fr := tablecheck.CheckFile(tf, imp)
 			total.Problems = append(total.Problems, fr.Problems...)
 			total.Floats = append(total.Floats, fr.Floats...)
 			for k, v := range fr.Counts {
@@ -844,7 +77,7 @@ func main() {
 		return &total
 	}, par.Opts{CaseTimeout: 300 * 1e9, MemMB: -1})
 	counts := map[string]int{}
-	var all, floats []problem
+	var all, floats []tablecheck.Problem
 	for _, fr := range res.Outs {
 		all = append(all, fr.Problems...)
 		floats = append(floats, fr.Floats...)
@@ -896,7 +129,7 @@ func main() {
 			rt++
 			if !v.IsValid() {
 				rtBad++
-				r.Fail(report.Failure{Key: "runtime " + pk + "." + n, What: "compiled-in binding " + pk + "." + n + " is an invalid reflect.Value", Case: problem{Pkg: pk, Name: n}})
+				r.Fail(report.Failure{Key: "runtime " + pk + "." + n, What: "compiled-in binding " + pk + "." + n + " is an invalid reflect.Value", Case: tablecheck.Problem{Pkg: pk, Name: n}})
 				continue
 			}
 			if v.Kind() == reflect.Ptr && v.IsNil() && v.Type().Elem().Kind() == reflect.Interface && !strings.HasPrefix(n, "_") {
@@ -923,14 +156,14 @@ func main() {
 }
 
 func verOf(file string) string {
-	if m := relRe.FindStringSubmatch(file); m != nil {
+	if m := tablecheck.RelRe.FindStringSubmatch(file); m != nil {
 		return "go1." + m[1]
 	}
 	return ""
 }
 
-func platKey(p problem) string {
-	if platRe.MatchString(p.File) {
+func platKey(p tablecheck.Problem) string {
+	if tablecheck.PlatRe.MatchString(p.File) {
 		return p.Plat
 	}
 	return "any"
